@@ -1043,7 +1043,7 @@ func c01diff(a, b map[string]string) (string, string) {
 	return c01kind(k), fmt.Sprintf("%d observations differ; first: %s: before %s, after %s", len(ks), k, c01q(a[k]), c01q(b[k]))
 }
 
-// flags: bit0-1 save method, bit2 start from a saved+reopened file, bit3 save in the middle and continue on the same handle
+// flags: bit0-1 save method, bit2 start from a saved+reopened file (bit4: reopened with a small UnzipXMLSizeLimit), bit3 save in the middle and continue on the same handle
 // c01runHist returns ("", "") or (signature, description); when rec is set it also emits hcycle lines and statistics.
 func c01runHist(r *Run, seed uint64, idx, nops, flags int, rec bool) (sig, what string, log []string) {
 	rng := NewRng(seed*1000003 + uint64(idx)*7919 + 17)
@@ -1059,13 +1059,26 @@ func c01runHist(r *Run, seed uint64, idx, nops, flags int, rec bool) (sig, what 
 	how := flags & 3
 	for i := 0; i < nops; i++ {
 		if flags&4 != 0 && i == nops/3 {
-			g, err := c01save(h.f, how+1)
+			var g *xl.File
+			var err error
+			if flags&16 != 0 {
+				// open with a small UnzipXMLSizeLimit: larger parts (worksheets, shared strings) are
+				// unzipped to temporary files and only decoded when an operation touches them
+				lim := int64([]int{1024, 600, 4096}[idx%3])
+				var b *bytes.Buffer
+				if b, err = h.f.WriteToBuffer(); err == nil {
+					g, err = xl.OpenReader(bytes.NewReader(b.Bytes()), xl.Options{UnzipXMLSizeLimit: lim})
+				}
+				h.log = append(h.log, fmt.Sprintf("# WriteToBuffer + OpenReader(UnzipXMLSizeLimit=%d), continue on the opened file", lim))
+			} else {
+				g, err = c01save(h.f, how+1)
+				h.log = append(h.log, "# save + open, continue on the opened file")
+			}
 			if err != nil {
 				return "hist:save-error", "save/open in the middle of the history failed: " + err.Error(), h.log
 			}
 			h.f.Close()
 			h.f = g
-			h.log = append(h.log, "# save + open, continue on the opened file")
 		}
 		if flags&8 != 0 && i == (2*nops)/3 {
 			if _, err := h.f.WriteToBuffer(); err != nil {
@@ -1096,10 +1109,19 @@ func c01runHist(r *Run, seed uint64, idx, nops, flags int, rec bool) (sig, what 
 	before := c01observe(h.f, h.maxRow, h.maxCol)
 	pre := map[string]string{}
 	list := h.f.GetSheetList()
+	preBook := ""
 	if rec {
 		for _, sh := range list {
 			pre[sh] = xl.VerifC01Rows(h.f, sh)
+			// the invariant of the theorems (Inv: every worksheet dense) on a reachable state
+			if rows, ok := c01parse(pre[sh]); ok {
+				if _, dense := c01denseAbs(rows); !dense {
+					return "hist:inv-not-dense", "worksheet " + sh + " of a workbook built through the public API is not dense before the save", h.log
+				}
+				r.Stat("hist:inv-dense-sheets")
+			}
 		}
+		preBook = c01bookDump(h.f)
 	}
 	g, err := c01save(h.f, how)
 	if err != nil {
@@ -1123,6 +1145,10 @@ func c01runHist(r *Run, seed uint64, idx, nops, flags int, rec bool) (sig, what 
 			r.Stat("hcycle:" + strings.SplitN(post, " ", 2)[0])
 			c01gridOracle(r, "hcycle", spec, post, ln)
 		}
+	}
+	if rec {
+		r.Op("hbook "+preBook, "ok "+c01bookDump(g))
+		r.Stat("hbook")
 	}
 	after := c01observe(g, h.maxRow, h.maxCol)
 	if k, d := c01diff(before, after); k != "" {
@@ -1217,6 +1243,7 @@ func runC01(r *Run, rng *Rng, replay string) {
 		nCols = 20000
 	}
 	c01colsPhase(r, rng, nCols)
+	c01cellTextPhase(r, rng, nCols/12)
 	lap("witnesses+attribute histories+cols")
 	// 1. fixed boundary payloads through every string op
 	for i, s := range c01fixedPayloads() {
@@ -1292,6 +1319,9 @@ func runC01(r *Run, rng *Rng, replay string) {
 		flags := i & 3
 		if i%3 == 1 {
 			flags |= 4
+			if i%2 == 1 {
+				flags |= 16
+			}
 		}
 		c01history(r, r.Seed, i, nops, flags)
 	}
@@ -1397,6 +1427,11 @@ func c01replay(r *Run, path string) {
 			c01afterSave(r)
 		case "farcell":
 			c01farCell(r)
+		case "setint":
+			n, _ := strconv.ParseInt(w[1], 10, 64)
+			c01setint(r, n)
+		case "setbool":
+			c01setbool(r, w[1] == "1")
 		case "mcols", "hmcols":
 			c01mcols(r, rest)
 		case "attrpair":
